@@ -206,7 +206,7 @@ def run(rep, tier, seed, replay):
     stats['design_violated'] = res['violated']
     phases['design'] = round(time.time() - t0, 1)
     # behaviours from the specification (both clients call), stratified
-    nsim = 2500 if tier == 'quick' else 30000
+    nsim = 2500 if tier == 'quick' else 12000
     sims = core.tlc_simulate('MC_Authz.tla', 'Sim_Authz.cfg', nsim, 5, seed, timeout=1200)
     cands = [to_behaviour(n + 1, s) for n, s in enumerate(sims) if len(s) > 1]
     phases['simulate'] = round(time.time() - t0, 1)
@@ -214,7 +214,7 @@ def run(rep, tier, seed, replay):
     for b in cands:
         by_stratum.setdefault(stratum(b), []).append(b)
     per = 1 if tier == 'quick' else 4
-    budget = 900 if tier == 'quick' else 6000
+    budget = 900 if tier == 'quick' else 1500
     chosen = []
     keys = sorted(by_stratum, key=str)
     rng.shuffle(keys)
